@@ -89,6 +89,20 @@ def run_all(conds, jobs=None, progress=True):
     return out
 
 
+def concrete_sweep(module, name, ranges, env=None, timeout=600):
+    """Engine cross-validation (vlib/concrete_worker.py): the harness function, untraced, on the whole finite space."""
+    worker = os.path.join(os.path.dirname(os.path.abspath(__file__)), "concrete_worker.py")
+    t0 = time.time()
+    p = subprocess.run([PY, worker, module, name, json.dumps(ranges)], env=_env(env), capture_output=True, text=True,
+                       timeout=timeout, cwd=os.path.dirname(module))
+    for ln in p.stdout.splitlines():
+        if ln.startswith("@@CC "):
+            out = json.loads(ln[5:])
+            out["wall_s"] = round(time.time() - t0, 2)
+            return out
+    return {"error": "no verdict (rc=%s): %s" % (p.returncode, (p.stderr or "")[-800:]), "runs": 0, "bad": [], "n_bad": 0}
+
+
 def parse_call(call: str, module_globals: dict):
     """'f(1, b="x")' -> (args, kwargs), evaluated in the harness module's namespace."""
     k = call.find("(")
